@@ -490,8 +490,29 @@ fn run<T: Elem, const N: usize>(c: &SvecCheck, v: &mut Verdict) {
             }
             Op::Extend(s, xs) => {
                 if let (Some(a), Some(m)) = (&mut sv[*s], &mut model[*s]) {
-                    a.extend(xs.iter().map(|&x| T::make(x)));
+                    // an iterator that is not fused: it would yield again after its first `None`,
+                    // which a Vec never asks for
+                    let polls_after_end = std::cell::Cell::new(0u32);
+                    let mut k = 0usize;
+                    let mut ended = false;
+                    let it = std::iter::from_fn(|| {
+                        if ended {
+                            polls_after_end.set(polls_after_end.get() + 1);
+                            return if polls_after_end.get() <= 2 { Some(T::make(T::norm(77))) } else { None };
+                        }
+                        if k < xs.len() {
+                            k += 1;
+                            Some(T::make(xs[k - 1]))
+                        } else {
+                            ended = true;
+                            None
+                        }
+                    });
+                    a.extend(it);
                     m.extend(xs.iter().copied());
+                    if polls_after_end.get() > 0 {
+                        bad!(i, "polled-after-end", "op {}: extend asked its source for more after the source had returned None ({} more calls)", i, polls_after_end.get());
+                    }
                 }
             }
             Op::Clear(s) => {
@@ -504,7 +525,15 @@ fn run<T: Elem, const N: usize>(c: &SvecCheck, v: &mut Verdict) {
             Op::Retain(s, md, r) => {
                 if let (Some(a), Some(m)) = (&mut sv[*s], &mut model[*s]) {
                     let (md, r) = (*md, *r);
-                    a.retain(|t| t.val() % md != r);
+                    // the predicate sees every element exactly once, in order (it may have state)
+                    let seen = std::cell::RefCell::new(Vec::new());
+                    a.retain(|t| {
+                        seen.borrow_mut().push(t.val());
+                        t.val() % md != r
+                    });
+                    if *seen.borrow() != *m {
+                        bad!(i, "predicate-calls", "op {}: retain called its predicate on {:?} but the vector held {:?} (each element once, in order, is what a Vec does)", i, seen.borrow(), m);
+                    }
                     m.retain(|x| x % md != r);
                     removed = true;
                 }
@@ -512,10 +541,15 @@ fn run<T: Elem, const N: usize>(c: &SvecCheck, v: &mut Verdict) {
             Op::RetainMut(s, md, r, add) => {
                 if let (Some(a), Some(m)) = (&mut sv[*s], &mut model[*s]) {
                     let (md, r, add) = (*md, *r, *add);
+                    let seen = std::cell::RefCell::new(Vec::new());
                     a.retain_mut(|t| {
+                        seen.borrow_mut().push(t.val());
                         t.bump(add);
                         t.val() % md != r
                     });
+                    if *seen.borrow() != *m {
+                        bad!(i, "predicate-calls", "op {}: retain_mut called its predicate on {:?} but the vector held {:?}", i, seen.borrow(), m);
+                    }
                     m.retain_mut(|x| {
                         *x = x.wrapping_add(add);
                         *x % md != r
